@@ -21,6 +21,11 @@
 (* DMARC quarantine action) into the message metadata which the targets    *)
 (* observe.                                                                *)
 (*                                                                         *)
+(* Besides none/ignore/quarantine/reject (what FailAction.Apply makes of a *)
+(* failure) a check may return the raw combined result Reject &&           *)
+(* Quarantine (ExtraV; check.milter does): reject wins - it counts as a    *)
+(* reject in the merge and its quarantine half is dropped with the group.  *)
+(*                                                                         *)
 (* Two further dimensions (constants Kinds, ModOn):                         *)
 (*  kind "rpipe"  the target of block D1 is the real remote target, which  *)
 (*                refuses a message that is flagged when the body reaches  *)
